@@ -4,8 +4,8 @@ import MuscleModel.Gateway.Stream
 # `RawDataMessageIOGateway` and `SLIPFramedDataMessageIOGateway` over a stream transport
 
 Raw sender: `DoOutputImplementation` (stream branch) — a Message is a list of chunks written back
-to back; `Message::FindData` fails on an EMPTY buffer, which the sender takes for "no more chunks":
-the rest of that Message is dropped (mirrored here: `settle` drops the Message at an empty chunk).
+to back; the sender walks the chunks by count and skips a chunk without bytes (`Message::FindData`
+has no pointer to return for an empty buffer; it contributes nothing but must not end the Message).
 Raw receiver: immediate-forward mode (`minChunk = 0`): one `Read` of at most `readSize` bytes per
 call, forwarded as one chunk; minimum-chunk mode: reads into a `minChunk`-byte buffer, forwards it
 when full and recurses.
@@ -32,10 +32,9 @@ def rawSettle (t0 : RawTx) : RawTx × Bool :=
     | m :: r => { hasMsg := true, chunks := m, cur := [], queue := r }
   if !t.hasMsg then (t, false)
   else if t.cur.isEmpty then
-    match t.chunks with
-    | c :: cs => if c.isEmpty then ({ t with hasMsg := false, chunks := [] }, true)   -- FindData fails on an empty buffer
-                 else ({ t with cur := c, chunks := cs }, false)
-    | [] => ({ t with hasMsg := false }, true)
+    match t.chunks.dropWhile (fun c => c.isEmpty) with     -- the next chunk that has bytes
+    | c :: cs => ({ t with cur := c, chunks := cs }, false)
+    | [] => ({ t with hasMsg := false, chunks := [] }, true)
   else (t, false)
 
 def rawTx : TxM RawTx where
@@ -117,8 +116,8 @@ def slipRx (K : SlipK) (readSize : Nat) : RxM SlipRx Bytes where
   onRead := fun s c => slipFeed K s c []
   again := fun _ _ _ => false
 
-/-- what `PopNextOutgoingMessage` makes of a Message: `FindData` stops at the first empty chunk -/
-def slipMsg (K : SlipK) (m : List Bytes) : List Bytes := (m.takeWhile (fun c => !c.isEmpty)).map (slipEncode K)
+/-- what `PopNextOutgoingMessage` makes of a Message: every chunk that has bytes, SLIP-encoded -/
+def slipMsg (K : SlipK) (m : List Bytes) : List Bytes := (m.filter (fun c => !c.isEmpty)).map (slipEncode K)
 
 def slipGw (K : SlipK) (readSize : Nat) : Gw RawTx SlipRx (List Bytes) Bytes where
   tx := rawTx
